@@ -96,7 +96,20 @@ def setup_ops_for(kind, rng, fm):
     if kind == "iso_del" and not fm.isos:
         ops.append(dict(base, op="isotherm_to_db", iso=c08._iso_spec(rng, {"open_domain": False}), autoinsert_material=True,
                         autoinsert_adsorbate=True, via="function"))
+    if kind in ("ptype_up", "ptype_over", "ptype_del"):
+        # the type table the operation works on already holds other entries (they must survive whatever happens)
+        t = rng.choice(["adsorbate", "material", "isotherm", "isotype"])
+        HINTS["table"] = t
+        for name in rng.sample(c08.PTYPES[t][:3], 2):
+            if name not in fm.ptypes[t]:
+                td = {"type": name, "description": "prior entry"}
+                if t != "isotype":
+                    td["unit"] = "nm"
+                ops.append(dict(base, op="ptype_to_db", table=t, type_dict=td, overwrite=False))
     return ops
+
+
+HINTS = {}
 
 
 def gen_w(rng, cfg, fm, favourites, kind=None):
@@ -129,6 +142,12 @@ def gen_w(rng, cfg, fm, favourites, kind=None):
             absent_a = [a for a in c08.UADS if a not in fm.ads]
             if absent_a and rng.random() < 0.7:
                 op["iso"]["adsorbate"] = rng.choice(absent_a)
+            if rng.random() < 0.12:
+                # a long point isotherm (a few thousand points): code paths that treat large uploads differently
+                n = rng.randint(2100, 2600)
+                op["iso"].update(kind="point", pressure=[0.001 * (i + 1) for i in range(n)],
+                                 loading=[0.002 * (i + 1) / (1 + 0.001 * i) for i in range(n)], branch="ads", other={})
+                op["iso"].pop("model", None)
         else:
             op.update(autoinsert_material=rng.random() < 0.5, autoinsert_adsorbate=rng.random() < 0.5)
     elif kind == "iso_del":
@@ -171,7 +190,7 @@ def gen_w(rng, cfg, fm, favourites, kind=None):
         op.update(op="material_delete_db", by=rng.choice(["name", "object"]),
                   name=pick if pick and rng.random() < 0.9 else rng.choice(c08.UNIVERSE["mats"]))
     else:
-        t = rng.choice(["adsorbate", "material", "isotherm", "isotype"])
+        t = HINTS.pop("table", None) or rng.choice(["adsorbate", "material", "isotherm", "isotype"])
         present = sorted(fm.ptypes[t])
         if kind == "ptype_del":
             op.update(op="ptype_delete_db", table=t,
